@@ -55,14 +55,14 @@ def gen_step(rng, i, ops=OPS, big=False, maxdata=None, fails=False, dirs=False, 
         size = rng.choice([0, 1, 7, 100, 4000, 5000, 70000] + ([300000] if big else []))
         return {"op": op, "path": "/pull%d" % i, "size": size, "seed": sd, "rec": rng.choice(["64k", "one", "random", "alt", "zeros"]),
                 "split": rng.choice(["whole", "random", "random", "blocks", "bytes1" if size <= 300 else "random"]),
-                "dest": rng.choice(["bytesio", "bytesio", "path"]), "cb": rng.choice([None, None, "ok", "raise"])} if not (fails and rng.random() < 0.2) else \
+                "dest": rng.choice(["bytesio", "bytesio", "path"]), "cb": rng.choice([None, None, "ok", "raise", "raisebase"])} if not (fails and rng.random() < 0.2) else \
                {"op": op, "path": "/pull%d" % i, "size": rng.choice([5000, 70000, 200000]), "seed": sd, "rec": rng.choice(["one", "random"]), "split": rng.choice(["random", "blocks"]),
                 "dest": "failing", "fail_after": rng.choice([0, 1, 2]), "cb": None}
     if op == "push":
         size = rng.choice([0, 1, 100, 2047, 2048, 2049, 4087, 4088, 4089, 10000, 70000] + ([300000] if big else []))
         st = {"op": op, "path": "/push%d" % i, "size": size, "seed": sd, "src": rng.choice(["bytesio", "bytesio", "file"]),
               "mode": rng.choice([0o100644, 0o100777, 0, 1, 0x7FFFFFFF, 0xFFFFFFFF]), "mtime": rng.choice([0, 1, 1234567890, 0x7FFFFFFF, 0xFFFFFFFF]),
-              "cb": rng.choice([None, None, "ok", "raise"])}
+              "cb": rng.choice([None, None, "ok", "raise", "raisebase"])}
         if fails and rng.random() < 0.06:
             # the device acknowledges the (only) WRTE of this push later than the host is willing to wait
             st["slow_ack"] = rng.choice([1.5, 3.0])
@@ -479,17 +479,22 @@ def make_callback(impl, kind, calls):
     """progress callback of the right flavour: AdbDeviceAsync awaits its callback"""
     if not kind:
         return None
+    from .session import CallbackAbort
     if impl == "sync":
         def cb(p, n, total):
             calls.append((p, n, total))
             if kind == "raise":
                 raise RuntimeError("callback failure (deliberate)")
+            if kind == "raisebase":
+                raise CallbackAbort("callback failure that is not an Exception subclass (deliberate)")
         return cb
 
     async def acb(p, n, total):
         calls.append((p, n, total))
         if kind == "raise":
             raise RuntimeError("callback failure (deliberate)")
+        if kind == "raisebase":
+            raise CallbackAbort("callback failure that is not an Exception subclass (deliberate)")
     return acb
 
 
